@@ -462,6 +462,19 @@ void sim_pfx_cb(struct pfx_table *t, const struct pfx_record rec, const bool add
 	cb->n_pfx_cb++;
 	if (s->ex.open)
 		s->ex.cb_pfx++;
+	if (s->cfg.stop_in_callback && rec.socket == s->sock && pthread_equal(pthread_self(), s->sock->thread_id) &&
+	    ++s->own_callbacks == s->cfg.stop_in_callback && !s->woke_driver_from_callback) {
+		/* Wake the driver now: it will call rtr_stop() while this thread is still applying the response (the
+		 * callback runs outside the table lock).  Give it a few milliseconds of real time to get there, then carry
+		 * on: a correct rtr_stop() waits for this thread before it removes the socket's records. */
+		struct timespec ts = {0, 8000000};
+
+		s->woke_driver_from_callback = true;
+		s->finished = true;
+		CNT("c07/stop_issued_in_the_middle_of_an_update");
+		sem_post(&s->done);
+		nanosleep(&ts, NULL);
+	}
 	prec_from_record(&rec, &p);
 	int at = -1;
 
